@@ -184,7 +184,7 @@ RULES = [
 ]
 
 cycle = Unit(
-    name='amg_cycle', props=['C02', 'C15', 'C10'],
+    name='amg_cycle', props=['C02', 'C15', 'C10'], replay='orchestration',
     functions=['amg<Backend,Coarsening,Relax>::cycle(level_iterator, rhs, x)'],
     desc='one multigrid visit of a level: typestate (scratch of every level may hold anything), exact call sequence and arguments per cycle, rhs untouched',
     cuts={'body': Cut('amgcl/amg.hpp', r'void cycle\(level_iterator lvl, const Vec1 &rhs, Vec2 &x\) const\s*(?=\{)',
@@ -250,7 +250,7 @@ __CPROVER_decreases(prm.pre_cycles - i)
 """
 
 apply_ = Unit(
-    name='amg_apply', props=['C02', 'C15', 'C10'],
+    name='amg_apply', props=['C02', 'C15', 'C10'], replay='orchestration',
     functions=['amg<Backend,Coarsening,Relax>::apply(rhs, x)'],
     desc='preconditioner application: clear(x) then pre_cycles cycles (or copy(rhs, x)); x is output only',
     cuts={'body': Cut('amgcl/amg.hpp', r'void apply\(const Vec1 &rhs, Vec2 &&x\) const\s*(?=\{)',
